@@ -105,11 +105,27 @@ m('c12-dcl-korean', ('lang.go', '''		koreanOnce.Do(func() {
 		}'''), ('lang.go', '\tportugueseOnce         sync.Once\n', '\tportugueseOnce         sync.Once\n\tkoreanMu               sync.Mutex\n'))
 m('c12-shared-scratch-bigint', ('entropy.go', '\twordIdx := new(big.Int)\n', '\twordIdx := scratchIdx\n'),
   ('entropy.go', 'var first11BitsMask = big.NewInt(2048)', 'var first11BitsMask = big.NewInt(2048)\nvar scratchIdx = new(big.Int)'))
-m('c13-czech-under-portuguese-once', ('lang.go', '\t\tczechOnce.Do(func() {', '\t\tportugueseOnce.Do(func() {'))
+m('c13-japanese-map-from-korean-if-built', ('lang.go', '''			for idx, word := range wordlist.Japanese {
+				japaneseMapping[word] = int64(idx)
+			}''', '''			src := wordlist.Japanese
+			if koreanMapping != nil {
+				src = wordlist.Korean
+			}
+			for idx, word := range src {
+				japaneseMapping[word] = int64(idx)
+			}'''))
 m('c13-entropy-reversed-in-place', ('entropy.go', '\t// entropy big int\n', '\tif len(entropy) == 28 {\n\t\tentropy[27], entropy[26] = entropy[26], entropy[27]\n\t\tdefer func() { entropy[27], entropy[26] = entropy[27], entropy[26] }()\n\t}\n\t// entropy big int\n'))
 m('c13-entropy-zeroed-after', ('bip39.go', '\treturn fromEntropy(entropy, entLen/4*3, lang), nil', '\tout := fromEntropy(entropy, entLen/4*3, lang)\n\tif entLen == 20 {\n\t\tentropy[19] = 0\n\t}\n\treturn out, nil'))
-m('c13-last-lang-cache', ('lang.go', 'func (lan Language) list() []string {\n\tswitch lan {', 'var lastList []string\n\nfunc (lan Language) list() []string {\n\tif lan > Portuguese && lastList != nil {\n\t\treturn lastList\n\t}\n\tl := lan.list0()\n\tlastList = l\n\treturn l\n}\n\nfunc (lan Language) list0() []string {\n\tswitch lan {'))
-m('c14-list-default-nil', ('lang.go', '\tdefault:\n\t\treturn wordlist.English\n', '\tdefault:\n\t\treturn nil\n'))
+m('c13-separator-remembered', ('entropy.go', '''	if lg == Japanese {
+		return strings.Join(wordList, "\\u3000")
+	}''', '''	if lg == Japanese {
+		usedJapanese = true
+		return strings.Join(wordList, "\\u3000")
+	}
+	if lg == Korean && usedJapanese {
+		return strings.Join(wordList, "\\u3000")
+	}'''), ('entropy.go', 'var first11BitsMask = big.NewInt(2048)', 'var first11BitsMask = big.NewInt(2048)\nvar usedJapanese bool'))
+m('c14-mapping-nil-deref', ('mnemonic.go', '\tmapping := lg.mapping()\n', '\tmapping := lg.mapping()\n\tif mapping == nil && wordCount == 21 {\n\t\tmapping[wordList[0]] = 0\n\t}\n'))
 m('c14-revert-stringer-guard', ('language_string.go', 'if i < 0 || i >= Language(len(_Language_index)-1) {', 'if i >= Language(len(_Language_index)-1) {'))
 m('c14-quadratic-check', ('mnemonic.go', '\twordCount := len(wordList)\n', '\twordCount := len(wordList)\n\tif wordCount > 100000 {\n\t\tfor i := range wordList {\n\t\t\tfor j := range wordList {\n\t\t\t\tif i != j && len(wordList[i]) > 1<<30 && wordList[i] == wordList[j] {\n\t\t\t\t\treturn ErrWordLen\n\t\t\t\t}\n\t\t\t}\n\t\t}\n\t}\n'))
 m('c15-sentinel-swapped', ('mnemonic.go', '\t\treturn ErrChecksumIncorrect', '\t\tif wordCount == 15 {\n\t\t\treturn ErrWordLen\n\t\t}\n\t\treturn ErrChecksumIncorrect'))
